@@ -166,8 +166,12 @@ def handle_exception(
             exception,
         )
 
-        # Get attempt count from message (0-indexed) and increment
-        current_attempts = message.attempts or 0
+        # Attempts already made before this one (0-indexed). The queue delivers
+        # message.attempts 1-based (poll sets it to the row's attempts + 1, which
+        # counts this delivery), so convert; the retry copy below carries
+        # current_attempts + 1 into the new queue row, so the count grows by one
+        # per retry and max_attempts bounds the total number of executions.
+        current_attempts = max((message.attempts or 0) - 1, 0)
         max_attempts = message.max_attempts or 10
 
         if current_attempts + 1 < max_attempts:
